@@ -130,6 +130,6 @@ UNIT = Unit(
     ],
     mechanisms=["type-pair comparison rules; identity shortcut 'this == &theRHS'"],
     replay='xobject', replay_inputs={k: '*::g_' + k for k in ('tl', 'tr', 'bl', 'br', 'nl', 'nr', 'sl', 'sr', 'alias')},
-    assumptions=['compareNodeSets family (equalNodeSet ... greaterThanOrEqualNodeSet) implements the XPath 3.4 existential node-set rule: stubs here; the loops and the dispatch on the operand type behind them are proved in unit c02_nodesetcmp; which comparison functor pair each of the six one-line helpers passes on is not under contract',
+    assumptions=['compareNodeSets family (equalNodeSet ... greaterThanOrEqualNodeSet) implements the XPath 3.4 existential node-set rule: stubs here; the loops and the dispatch on the operand type behind them are proved in unit c02_nodesetcmp; which functor pair each of the six helpers passes on, and what the functors do, is proved in unit c02_nshelpers',
                  'XObject::boolean()/num()/str() virtual conversions are the XPath conversions (accessor stubs); strings abstracted to identities'],
 )
